@@ -14,7 +14,7 @@ CONFIG = {
         "level_note": ("Trusted: Dask graph construction and dask.local.get_async (real code), NumPy/SciPy kernels; tasks "
                        "are atomic (no pre-emption inside a task except pulsarbat frames in the pre-emptive sub-mode); "
                        "values compared bit-for-bit, alarm only above tau = 64 eps (1+log2 N) max|ref| per op."),
-        "quick_runs": 30000,
+        "quick_runs": 24000,
         "thorough_runs": 150000,
         "quick_wall_cap": 300,
         "thorough_wall_cap": 3000,
